@@ -253,6 +253,9 @@ size_t SCPI_UInt64ToStrBase(uint64_t val, char * str, size_t len, int8_t base) {
  * @return number of bytes written to str (without '\0')
  */
 size_t SCPI_FloatToStr(float val, char * str, size_t len) {
+    if (len == 0) {
+        return 0;
+    }
     SCPIDEFINE_floatToStr(val, str, len);
     return strlen(str);
 }
@@ -265,6 +268,9 @@ size_t SCPI_FloatToStr(float val, char * str, size_t len) {
  * @return number of bytes written to str (without '\0')
  */
 size_t SCPI_DoubleToStr(double val, char * str, size_t len) {
+    if (len == 0) {
+        return 0;
+    }
     SCPIDEFINE_doubleToStr(val, str, len);
     return strlen(str);
 }
@@ -1023,6 +1029,10 @@ static char *scpi_ecvt(double arg, int ndigits, int *decpt, int *sign, char *buf
 
 char * SCPI_dtostre(double __val, char * __s, size_t __ssize, unsigned char __prec, unsigned char __flags) {
     char buffer[SCPI_DTOSTRE_BUFFER_SIZE];
+
+    if (__ssize == 0) {
+        return __s;
+    }
 
     int sign = SCPIDEFINE_signbit(__val);
     char * s = buffer;
